@@ -175,6 +175,33 @@ def corridor_cases(tier, rng, kind):
         s_ = (pick(rs[0], near), rng.choice([rs[0][1], rng.randint(rs[0][1], rs[0][3])]))
         e_ = (pick(rs[-1], near if shape != "s" else rng.choice(["left", "right", "any"])), rng.choice([rs[-1][3], rng.randint(rs[-1][1], rs[-1][3])]))
         yield {"kind": kind, "rects": rs, "s": list(s_), "e": list(e_), "den": 1}
+    # nearly aligned edges: consecutive rectangles whose left or right sides differ by 1-2 thousandths of a unit (the width a
+    # size option with three decimals produces) - where a tolerance in the triangulation or in an orientation test would treat
+    # them as aligned although the door it creates is real.  Thousandth-unit grid, corridors 0.05-0.3 units wide.
+    for _ in range(1500 if tier == "quick" else 20000):
+        k = rng.randint(2, 6)
+        den = 1000
+        L, R = sorted(rng.sample(range(0, 301), 2))
+        if R - L < 20:
+            R = L + 20
+        rs, top = [], 0
+        for i in range(k):
+            h = rng.randint(10, 80)
+            rs.append([L, top, R, top + h])
+            top += h
+            mode = rng.random()
+            if mode < 0.6:
+                # nudge one or both sides by 1-2 units
+                L2 = L + rng.choice([0, 0, 1, -1, 2, -2])
+                R2 = R + rng.choice([0, 0, 1, -1, 2, -2])
+            else:
+                L2, R2 = sorted(rng.sample(range(0, 301), 2))
+            if L2 < 0 or max(L, L2) + 5 > min(R, R2) or (L2 == L and R2 == R):
+                L2, R2 = L, R + 1
+            L, R = L2, R2
+        s = (rng.randint(rs[0][0], rs[0][2]), rng.randint(rs[0][1], rs[0][3]))
+        e = (rng.randint(rs[-1][0], rs[-1][2]), rng.randint(rs[-1][1], rs[-1][3]))
+        yield {"kind": kind, "rects": rs, "s": list(s), "e": list(e), "den": den}
     # random larger corridors (k up to 12), integer corners up to 40
     for _ in range(1500 if tier == "quick" else 25000):
         k = rng.randint(2, 12)
